@@ -422,9 +422,36 @@ def sc_random(r):
     return s + [f"adv {p}", "settle"]
 
 
+def sc_pregenesis_restart(r):
+    """a daemon restart between the end of the DKG and the genesis time: the beacon is loaded in catch-up mode
+    (drand_daemon: StartBeacon(catchup=true)) while its clock is still before genesis; nothing may be signed
+    until the genesis time, whatever the store holds and however the clock then advances"""
+    n, thr = r.choice(GROUPS)
+    period = r.choice([2, 3, 5, 10, 30])
+    lead = r.range(2, 3 * period)
+    s = [f"init {n} {thr} {period} {max(1, period // 2)} {r.choice(['chained', 'unchained'])} {lead} {r.choice(['mem', 'mem', 'bolt'])}"]
+    if r.chance(1, 3):
+        s += ["start", "stop", "restart"]
+    s.append("catchup")
+    left = lead
+    for _ in range(r.range(0, 2)):
+        d = r.range(1, max(1, left - 1))
+        if d < left:
+            s.append(f"adv {d}")
+            left -= d
+            if r.chance(1, 2):
+                s.append(f"partial {r.range(1, n - 1)} c+1 good")
+    s += ["settle", f"adv {left}"]
+    for _ in range(r.range(1, 3)):
+        s.append(f"adv {period}")
+        if r.chance(1, 2):
+            s.append("agg")
+    return s + ["settle"]
+
+
 KINDS = [("normal", sc_normal), ("stall", sc_stall), ("burst", sc_burst), ("ahead", sc_ahead), ("gated", sc_gated),
          ("restart", sc_restart), ("latejoin", sc_late_join), ("window", sc_window), ("transition", sc_transition),
-         ("reshare", sc_reshare), ("random", sc_random)]
+         ("reshare", sc_reshare), ("pregenesis", sc_pregenesis_restart), ("random", sc_random)]
 
 
 # ---------------------------------------------------------------- shrinking / confirmation
